@@ -295,7 +295,8 @@ def gen_doc(rng, chk, size, lookups=0):
     # physical line limit (BOM counts on the first line)
     out = []
     for i, l in enumerate(lines):
-        total = len(l.body) + len(EOLS[l.eol]) + (len(BOMS[bom]) if bom and i == 0 else 0)
+        # the BOM counts on the first line that is actually written (an earlier one may have been dropped)
+        total = len(l.body) + len(EOLS[l.eol]) + (len(BOMS[bom]) if bom and not out else 0)
         if total > MAXLINE:
             if l.eol == "crlf" and total - 1 <= MAXLINE:
                 l.eol = "lf"
